@@ -31,7 +31,8 @@ VOCAB = [
 
 
 def label(module):
-    return MODULE_LABEL[module]
+    # modules outside the labelled vocabulary (deviation variants can name anything) carry no floor
+    return MODULE_LABEL.get(module, "unlabelled")
 
 
 def floor_of(world):
